@@ -92,6 +92,11 @@ LEVELS = {
         "note": "trusted: text layer; known findings F7 (key `<<` through yaml.v3's emitter) and F17 are reported as KNOWN-FINDING",
         "technique": "Coq proof: permutation-invariance of the marshal model + model-executed re-parse in the correspondence; oracle on both legs",
     },
+    "C16": {
+        "text": "Coq theorems for every struct descriptor and every input mapping: each input key is consumed by exactly one place (Permutation + NoDup of consumed ++ leftover), the matching rule (tag / lower-cased name, else first present alias when the primary is absent), absent keys leave fields untouched, leftover keeps document order, `-` and unexported fields never receive anything; the hypothesis (pairwise distinct keys) is proved for every struct descriptor regenerated from the library source. A generic model of the reflective decoder (all target kinds) and a structural reference decoder are compared with ordered.Unmarshal and with yaml.Node.Decode on a family of 12 types whose descriptors are regenerated from the harness source; agreement theorem in Proofs/ReflectProofs.v as listed in the evidence.",
+        "note": "trusted: reflect and yaml.v3's decoder (reference decoder validated by correspondence); translator for tags",
+        "technique": "Coq proof: partition/permutation theorem over generated descriptors + decoder agreement; differential correspondence against both decoders",
+    },
 }
 
 REASONS_PENDING = "check not built yet in this revision (work in progress; see DESIGN.md §10 build order)"
